@@ -60,6 +60,9 @@ PARAMS = [
     ('karatsubaMaxReduceLimbs', 'src/uint/mul/karatsuba.rs', r'pub const KARATSUBA_MAX_REDUCE_LIMBS: usize = (\d+);', num, 'C03: karatsuba_mul_limbs falls back to adc_mul_limbs when even-floored overlap <= this; karatsuba_square_limbs to schoolbook when size <= 2x this'),
     ('boxedSquareStartFactor', 'src/uint/boxed/mul.rs', r'if self\.nlimbs\(\) >= KARATSUBA_MIN_STARTING_LIMBS \* (\d+) \{', num, 'C03: factor in BoxedUint::square threshold'),
     ('karaSquareReduceFactor', 'src/uint/mul/karatsuba.rs', r'if size <= KARATSUBA_MAX_REDUCE_LIMBS \* (\d+) \|\| \(size & 1\) == 1 \{', num, 'C03: factor in karatsuba_square_limbs fallback threshold'),
+    # --- C09: exponentiation window
+    ('powWindow', 'src/modular/pow.rs', r'const\s+WINDOW\s*:\s*u32\s*=\s*(\d+)\s*;', num, 'C09: fixed-window size (bits) of pow_montgomery_form / multi_exponentiate_montgomery_form_*'),
+    ('boxedPowWindow', 'src/modular/boxed_monty_form/pow.rs', r'const\s+WINDOW\s*:\s*u32\s*=\s*(\d+)\s*;', num, 'C09: fixed-window size (bits) of the boxed pow_montgomery_form'),
     # -- more entries are appended above this line by the integrator
 ]
 
